@@ -1,95 +1,18 @@
 package core
 
 import (
-	"encoding/json"
-	"fmt"
-	"os"
 	"testing"
 
 	"github.com/grindlemire/go-lucene/verif/report"
 )
 
-// replayCase is implemented per property: decode the stored case and run the pure
-// check on it.
-var replayers = map[string]func(raw json.RawMessage) *report.Failure{}
+var replayers = report.Replayers
 
 // TestReplay re-executes a stored violation without the PBT library.
-func TestReplay(t *testing.T) {
-	cfg := report.Load()
-	if cfg.Replay == "" {
-		t.Skip("no VERIF_REPLAY")
-	}
-	raw, err := os.ReadFile(cfg.Replay)
-	if err != nil {
-		t.Fatalf("read replay: %v", err)
-	}
-	var v report.Violation
-	if err := json.Unmarshal(raw, &v); err != nil {
-		t.Fatalf("parse replay: %v", err)
-	}
-	fn, ok := replayers[v.Property]
-	if !ok {
-		t.Skipf("property %s is not in this package", v.Property)
-	}
-	if f := fn(v.Case); f != nil {
-		fmt.Printf("REPLAY-FAILS property=%s sub=%s\n  why: %s\n", v.Property, f.Sub, f.Msg)
-		t.Fail()
-		return
-	}
-	fmt.Printf("REPLAY-PASSES property=%s\n", v.Property)
-}
+func TestReplay(t *testing.T) { report.RunReplay(t) }
 
-// regress replays every stored regression case of a property; any failure is a
-// violation (a fixed finding that came back, or a past shrunk failure).
-func regress(t *testing.T, st *report.Stats, property string) {
-	dir := os.Getenv("VERIF_REGRESS")
-	if dir == "" {
-		dir = "/verif/regress"
-	}
-	ents, _ := os.ReadDir(dir)
-	st.Stream("regress", false, "stored regression cases")
-	for _, e := range ents {
-		name := e.Name()
-		if len(name) < 4 || name[:3] != property {
-			continue
-		}
-		raw, err := os.ReadFile(dir + "/" + name)
-		if err != nil {
-			continue
-		}
-		var v report.Violation
-		if json.Unmarshal(raw, &v) != nil || v.Property != property {
-			continue
-		}
-		st.Eval()
-		if f := replayers[property](v.Case); f != nil {
-			var c any
-			_ = json.Unmarshal(v.Case, &c)
-			st.Violate("regress:"+name, c, f)
-		}
-	}
-}
+func regress(t *testing.T, st *report.Stats, property string) { report.Regress(st, property) }
 
-// activeFindings replays the witness of each open finding of the property; the
-// ones whose witness still fails are active (announced, excluded), the others are
-// switched off for this run.
 func activeFindings(st *report.Stats, property string) map[string]bool {
-	active := map[string]bool{}
-	for _, f := range report.Open(report.LoadFindings(st.Cfg().Findings), property) {
-		owner, ok := replayers[f.Property]
-		if !ok || len(f.Witness) == 0 {
-			// witness lives in another package's property: trust the listing
-			active[f.Signature] = true
-			continue
-		}
-		if fail := owner(f.Witness); fail != nil {
-			active[f.Signature] = true
-			if f.Property == property {
-				st.Known(f.ID, f.WhatFails)
-			}
-		} else {
-			st.Note("finding %s: witness no longer fails; its exclusion is off for this run", f.ID)
-		}
-	}
-	return active
+	return report.ActiveFindings(st, property)
 }
